@@ -60,15 +60,23 @@ DEALLOC = Lift(DQ, r"void dealloc_node\(node\* n\)", rules=[
     Sub(r"\b(\w+)->~node\(\);", r"node_destroy(\1);", 1),
     Call(r"\bpool_\.deallocate", "pool_deallocate(self, {0})", 1)])
 
-LOOP_GHOSTS = ("lin, lin_old, lin_new, g_lin_lr, g_lin_rl, g_lin_nr, g_lin_nl, g_lin_ldata, g_lin_rdata, g_steps, g_step_old, g_step_new, "
+LOOP_GHOSTS = ("lin, lin_old, lin_new, g_lin_lr, g_lin_rl, g_lin_nr, g_lin_nl, g_lin_ldata, g_lin_rdata, g_nsteps, g_step_old, g_step_new, "
                "g_last_read, g_obs, g_inward_seen, g_validated, g_own")
+
 LOOP_POP = """
 __CPROVER_assigns(*r, g_q.anchor_, POOL_OBJECTS, g_retired, g_retired_node, %s)
-__CPROVER_loop_invariant(!lin && g_retired == 0 && g_own == NULL && S_OK(g_q.anchor_))
+__CPROVER_loop_invariant(!lin && g_retired == 0 && g_own == NULL)
+__CPROVER_loop_invariant(A_OK(g_q.anchor_))
+__CPROVER_loop_invariant(POOL_OK)
+__CPROVER_loop_invariant(ENDS_OK(g_q.anchor_))
 """ % LOOP_GHOSTS
 LOOP_PUSH = """
-__CPROVER_assigns(g_q.anchor_, POOL_OBJECTS, %s)
-__CPROVER_loop_invariant(!lin && g_allocs == 1 && g_own == n && INPOOL(n) && n->data == data && S_OK(g_q.anchor_) && NOREF(g_q.anchor_, n))
+__CPROVER_assigns(g_q.anchor_, POOL_OBJECTS, g_own_ll, g_own_lr, %s)
+__CPROVER_loop_invariant(!lin && g_allocs == 1 && g_own == n && INPOOL(n) && g_own_data == data && OWN_INTACT)
+__CPROVER_loop_invariant(A_OK(g_q.anchor_))
+__CPROVER_loop_invariant(POOL_OK)
+__CPROVER_loop_invariant(ENDS_OK(g_q.anchor_))
+__CPROVER_loop_invariant(NOREF(g_q.anchor_, n))
 """ % LOOP_GHOSTS
 
 
@@ -97,17 +105,17 @@ _PUSH = {1: LOOP_PUSH, "count": 1}
 _F = DQ + ": deque::"
 
 DEQUE_UNITS = [
-    Unit("deque.pop_left", "deque.c", defines=["U_POP_LEFT"], enforce="pop_left",
+    Unit("deque.pop_left", "deque.c", defines=["U_POP_LEFT"], enforce="pop_left", replace=["stabilize"],
          lifts=deque_lifts(loops_pop=_POP, which=["pop_left"]), min_obligations=60,
          funcs=[_F + "pop_left, stabilize, stabilize_left, stabilize_right, dealloc_node"],
          doc="every successful anchor CAS of pop_left is a helping stabilize step or THE pop step, taken only from a stable anchor"),
-    Unit("deque.pop_right", "deque.c", defines=["U_POP_RIGHT"], enforce="pop_right",
+    Unit("deque.pop_right", "deque.c", defines=["U_POP_RIGHT"], enforce="pop_right", replace=["stabilize"],
          lifts=deque_lifts(loops_pop=_POP, which=["pop_right"]), min_obligations=60,
          funcs=[_F + "pop_right, stabilize, stabilize_left, stabilize_right, dealloc_node"]),
-    Unit("deque.push_left", "deque.c", defines=["U_PUSH_LEFT"], enforce="push_left",
+    Unit("deque.push_left", "deque.c", defines=["U_PUSH_LEFT"], enforce="push_left", replace=["stabilize", "stabilize_left"],
          lifts=deque_lifts(loops_push=_PUSH, which=["push_left"]), min_obligations=60,
          funcs=[_F + "push_left, stabilize, stabilize_left, stabilize_right"]),
-    Unit("deque.push_right", "deque.c", defines=["U_PUSH_RIGHT"], enforce="push_right",
+    Unit("deque.push_right", "deque.c", defines=["U_PUSH_RIGHT"], enforce="push_right", replace=["stabilize", "stabilize_right"],
          lifts=deque_lifts(loops_push=_PUSH, which=["push_right"]), min_obligations=60,
          funcs=[_F + "push_right, stabilize, stabilize_left, stabilize_right"]),
     Unit("deque.stabilize_left", "deque.c", defines=["U_STABILIZE_LEFT"], enforce="stabilize_left",
